@@ -38,10 +38,11 @@ structure CompPost (s : State) (tid : Nat) (s' : State) : Prop where
         (t.response = none → ∀ q w, t'.worker = some (q, w) →
           ∃ wk, wfind s.workers q w = some wk ∧ wk.parked = true)
   sts : s'.streams = s.streams
+  opk : ∀ k, k < s.nextOp → (alookup k s'.ops).isSome = (alookup k s.ops).isSome
 
 theorem CompPost.refl (s : State) (tid : Nat) (hd : TDone s tid) : CompPost s tid s :=
   ⟨Fr.refl s, RW.refl s, fun _ _ => rfl, fun _ _ _ => rfl,
-   fun t h => ⟨t, h, rfl, fun hr => by have := hd t h; simp [hr] at this⟩, rfl⟩
+   fun t h => ⟨t, h, rfl, fun hr => by have := hd t h; simp [hr] at this⟩, rfl, fun _ _ => rfl⟩
 
 theorem DetPost.fr {s s' : State} {tid : Nat} {t : Task} (h : DetPost s tid t s')
     (ht : alookup tid s.tasks = some t) (hr : t.response = none) : Fr s s' := by
@@ -62,8 +63,10 @@ theorem CompPost.of_det {s sD s' : State} {tid : Nat} {t : Task} (hd : DetPost s
   obtain ⟨ws, ts, he⟩ := hd.same
   have hnt : sD.nextTask = s.nextTask := by rw [he]
   have hst : sD.streams = s.streams := by rw [he]
+  have hno : sD.nextOp = s.nextOp := by rw [he]
+  have hops : sD.ops = s.ops := by rw [he]
   refine ⟨(hd.fr ht hr).trans hc.fr, hd.rw.trans hc.rw, fun q w => (hc.wex q w).trans (hd.wex q w), ?_, ?_,
-    hc.sts.trans hst⟩
+    hc.sts.trans hst, fun k hk => by rw [hc.opk k (by omega), hops]⟩
   · intro k hk hlt; rw [hc.tk k hk (by omega), hd.tk k hk]
   · intro t1 ht1
     rw [ht] at ht1; cases ht1
